@@ -37,6 +37,9 @@ def main():
     for d in sorted(glob.glob('/tmp/w2_*/_seeded/m*')):
         pid = d.split('/')[2][3:]
         items.append((f'{pid}-r2{os.path.basename(d)}', os.path.join(d, 'patch.diff')))
+    for d in sorted(glob.glob('/tmp/w3_*/_seeded/m*')):
+        pid = d.split('/')[2][3:]
+        items.append((f'{pid}-r3{os.path.basename(d)}', os.path.join(d, 'patch.diff')))
     if len(sys.argv) > 1:
         items = [it for it in items if any(a in it[0] for a in sys.argv[1:])]
     seen = {n for n, _ in items}
